@@ -294,6 +294,38 @@ func c22Gen(rng *rand.Rand, tier string) []Case {
 	out = append(out, Case{ID: "fixed-noencryption", Tags: []string{"fixed", "no-encryption"}, Ops: []string{
 		"init _ 0", "install " + k(1), "use " + k(1), "remove " + k(0), "raw remove -",
 	}})
+	// long histories: the keyring file grows past 4 KiB (about 80 32-byte keys); it must still reload
+	manyKey := func(j int) []byte {
+		k := make([]byte, 32)
+		for x := range k {
+			k[x] = byte(j*7 + x*13 + j/256)
+		}
+		k[0], k[1] = byte(j), byte(j>>8)
+		return k
+	}
+	longCase := func(id string, initN, installs int, r *rand.Rand) Case {
+		var init [][]byte
+		for j := 0; j < initN; j++ {
+			init = append(init, manyKey(1000+j))
+		}
+		ops := []string{"init " + c22ShowKeys(init) + " 1"}
+		for j := 0; j < installs; j++ {
+			ops = append(ops, "install "+hexb(manyKey(j)))
+			if r != nil && r.Intn(25) == 0 {
+				ops = append(ops, "use "+hexb(manyKey(r.Intn(j+1))))
+			}
+		}
+		ops = append(ops, "restart", "remove "+hexb(manyKey(0)), "restart")
+		return Case{ID: id, Ops: ops, Nontrivial: true, Tags: []string{"long-install-history", "restart", "file-over-4k"}}
+	}
+	out = append(out, longCase("fixed-100-installs", 1, 100, nil))
+	// a long but valid file from the start (e.g. written by an earlier run)
+	out = append(out, longCase("fixed-long-file", 110, 2, nil))
+	if tier == "thorough" {
+		for i := 0; i < 6; i++ {
+			out = append(out, longCase(fmt.Sprintf("long%d", i), 1+rng.Intn(60), 60+rng.Intn(90), rng))
+		}
+	}
 	for i := 0; i < n; i++ {
 		// initial ring: 1..4 distinct valid keys
 		perm := rng.Perm(len(valid))
@@ -423,7 +455,7 @@ func c22Gen(rng *rand.Rand, tier string) []Case {
 func init() {
 	register(&Prop{
 		ID:   "C22",
-		Rule: "real serf node with keyring + keyring file; requests through KeyManager (internal queries handled by the node's own key handlers), malformed payloads through NotifyMsg; random sequences of install/use/remove over valid keys (16/24/32 bytes), wrong lengths (0,1,15,17,23,31,33,64), absent keys, the primary, duplicates, restarts through the agent's loader in the middle of a history, initial files with repeated or invalid entries; non-trivial = keyring file configured, at least 2 rejected and 3 accepted requests",
+		Rule: "real serf node with keyring + keyring file; requests through KeyManager (internal queries handled by the node's own key handlers), malformed payloads through NotifyMsg; random sequences of install/use/remove over valid keys (16/24/32 bytes), wrong lengths (0,1,15,17,23,31,33,64), absent keys, the primary, duplicates, restarts through the agent's loader in the middle of a history, initial files with repeated or invalid entries, histories of 100+ installs and initial files of 110 keys (keyring file well over 4 KiB) followed by restarts; non-trivial = keyring file configured, at least 2 rejected and 3 accepted requests",
 		Gen:  c22Gen,
 		Exec: c22Exec,
 	})
